@@ -631,3 +631,82 @@ Proof.
   destruct T; destruct f; unfold src_opt, opt_env, opt_spec, src_opt_has_value_U8, src_opt_has_value_U16, src_opt_has_value_U32, src_opt_has_value_U64, src_opt_has_value_I8, src_opt_has_value_I16, src_opt_has_value_I32, src_opt_has_value_I64, src_opt_in_range_U8, src_opt_in_range_U16, src_opt_in_range_U32, src_opt_in_range_U64, src_opt_in_range_I8, src_opt_in_range_I16, src_opt_in_range_I32, src_opt_in_range_I64, src_opt_eq_U8, src_opt_eq_U16, src_opt_eq_U32, src_opt_eq_U64, src_opt_eq_I8, src_opt_eq_I16, src_opt_eq_I32, src_opt_eq_I64, src_opt_ne_U8, src_opt_ne_U16, src_opt_ne_U32, src_opt_ne_U64, src_opt_ne_I8, src_opt_ne_I16, src_opt_ne_I32, src_opt_ne_I64, src_opt_lt_U8, src_opt_lt_U16, src_opt_lt_U32, src_opt_lt_U64, src_opt_lt_I8, src_opt_lt_I16, src_opt_lt_I32, src_opt_lt_I64, src_opt_le_U8, src_opt_le_U16, src_opt_le_U32, src_opt_le_U64, src_opt_le_I8, src_opt_le_I16, src_opt_le_I32, src_opt_le_I64, src_opt_gt_U8, src_opt_gt_U16, src_opt_gt_U32, src_opt_gt_U64, src_opt_gt_I8, src_opt_gt_I16, src_opt_gt_I32, src_opt_gt_I64, src_opt_ge_U8, src_opt_ge_U16, src_opt_ge_U32, src_opt_ge_U64, src_opt_ge_I8, src_opt_ge_I16, src_opt_ge_I32, src_opt_ge_I64;
     run_src; cmps.
 Qed.
+
+(* ---- C16: required_base<T, Derived> for the eight integer types: in_range and the six comparison operators ---- *)
+Definition src_req_cmp (o : cmpop) (T : ity) : list effect :=
+  match o, T with
+  | CEq, U8 => src_req_eq_U8
+  | CEq, U16 => src_req_eq_U16
+  | CEq, U32 => src_req_eq_U32
+  | CEq, U64 => src_req_eq_U64
+  | CEq, I8 => src_req_eq_I8
+  | CEq, I16 => src_req_eq_I16
+  | CEq, I32 => src_req_eq_I32
+  | CEq, I64 => src_req_eq_I64
+  | CNe, U8 => src_req_ne_U8
+  | CNe, U16 => src_req_ne_U16
+  | CNe, U32 => src_req_ne_U32
+  | CNe, U64 => src_req_ne_U64
+  | CNe, I8 => src_req_ne_I8
+  | CNe, I16 => src_req_ne_I16
+  | CNe, I32 => src_req_ne_I32
+  | CNe, I64 => src_req_ne_I64
+  | CLt, U8 => src_req_lt_U8
+  | CLt, U16 => src_req_lt_U16
+  | CLt, U32 => src_req_lt_U32
+  | CLt, U64 => src_req_lt_U64
+  | CLt, I8 => src_req_lt_I8
+  | CLt, I16 => src_req_lt_I16
+  | CLt, I32 => src_req_lt_I32
+  | CLt, I64 => src_req_lt_I64
+  | CLe, U8 => src_req_le_U8
+  | CLe, U16 => src_req_le_U16
+  | CLe, U32 => src_req_le_U32
+  | CLe, U64 => src_req_le_U64
+  | CLe, I8 => src_req_le_I8
+  | CLe, I16 => src_req_le_I16
+  | CLe, I32 => src_req_le_I32
+  | CLe, I64 => src_req_le_I64
+  | CGt, U8 => src_req_gt_U8
+  | CGt, U16 => src_req_gt_U16
+  | CGt, U32 => src_req_gt_U32
+  | CGt, U64 => src_req_gt_U64
+  | CGt, I8 => src_req_gt_I8
+  | CGt, I16 => src_req_gt_I16
+  | CGt, I32 => src_req_gt_I32
+  | CGt, I64 => src_req_gt_I64
+  | CGe, U8 => src_req_ge_U8
+  | CGe, U16 => src_req_ge_U16
+  | CGe, U32 => src_req_ge_U32
+  | CGe, U64 => src_req_ge_U64
+  | CGe, I8 => src_req_ge_I8
+  | CGe, I16 => src_req_ge_I16
+  | CGe, I32 => src_req_ge_I32
+  | CGe, I64 => src_req_ge_I64
+  end.
+Definition src_req_in_range (T : ity) : list effect :=
+  match T with
+  | U8 => src_req_in_range_U8
+  | U16 => src_req_in_range_U16
+  | U32 => src_req_in_range_U32
+  | U64 => src_req_in_range_U64
+  | I8 => src_req_in_range_I8
+  | I16 => src_req_in_range_I16
+  | I32 => src_req_in_range_I32
+  | I64 => src_req_in_range_I64
+  end.
+
+Lemma src_req_cmp_is_spec o T v1 v2 :
+  in_range T v1 = true -> in_range T v2 = true ->
+  effs_eval [("lhs.val", v1); ("rhs.val", v2)] (src_req_cmp o T) = Some [zb (ecmp o v1 v2)].
+Proof.
+  intros H1 H2. destruct T; destruct o; unfold src_req_cmp, src_req_eq_U8, src_req_eq_U16, src_req_eq_U32, src_req_eq_U64, src_req_eq_I8, src_req_eq_I16, src_req_eq_I32, src_req_eq_I64, src_req_ne_U8, src_req_ne_U16, src_req_ne_U32, src_req_ne_U64, src_req_ne_I8, src_req_ne_I16, src_req_ne_I32, src_req_ne_I64, src_req_lt_U8, src_req_lt_U16, src_req_lt_U32, src_req_lt_U64, src_req_lt_I8, src_req_lt_I16, src_req_lt_I32, src_req_lt_I64, src_req_le_U8, src_req_le_U16, src_req_le_U32, src_req_le_U64, src_req_le_I8, src_req_le_I16, src_req_le_I32, src_req_le_I64, src_req_gt_U8, src_req_gt_U16, src_req_gt_U32, src_req_gt_U64, src_req_gt_I8, src_req_gt_I16, src_req_gt_I32, src_req_gt_I64, src_req_ge_U8, src_req_ge_U16, src_req_ge_U32, src_req_ge_U64, src_req_ge_I8, src_req_ge_I16, src_req_ge_I32, src_req_ge_I64; run_src; reflexivity.
+Qed.
+
+Lemma src_req_in_range_spec T v mn mx :
+  in_range T v = true -> in_range T mn = true -> in_range T mx = true ->
+  effs_eval [("val", v); ("min_value()", mn); ("max_value()", mx)] (src_req_in_range T)
+  = Some [zb ((mn <=? v)%Z && (v <=? mx)%Z)].
+Proof.
+  intros H1 H2 H3. destruct T; unfold src_req_in_range, src_req_in_range_U8, src_req_in_range_U16, src_req_in_range_U32, src_req_in_range_U64, src_req_in_range_I8, src_req_in_range_I16, src_req_in_range_I32, src_req_in_range_I64; run_src; cmps.
+Qed.
